@@ -2,8 +2,8 @@ package main
 
 import (
 	"fmt"
-	"regexp"
 	"go/types"
+	"regexp"
 	"strings"
 
 	"golang.org/x/tools/go/ssa"
